@@ -6,6 +6,7 @@ independent walkers on the real output (harness/walkers.py); see the evidence fi
 import MutagenModel.Proofs.Container.Flac
 import MutagenModel.Proofs.Container.ApeFile
 import MutagenModel.Proofs.Container.Id3File
+import MutagenModel.Proofs.Container.Iff
 set_option linter.unusedVariables false
 namespace Mutagen.C02
 open Mutagen Mutagen.FlacC
@@ -82,5 +83,67 @@ theorem ape_delete_keeps_id3v1 (audio v1 : Bytes) (items : List Ape.Item)
 /-- hypotheses satisfiable: 30 audio bytes, one item -/
 example : ApeF.AudioOK (List.replicate 30 5) (Ape.encodeTag [⟨[84, 105], 0, [120]⟩]) := by
   right; decide +kernel
+
+/-! ## IFF-style chunk files (AIFF, WAVE, DSDIFF): `[root header][form type][chunks][ID3 chunk?][chunks]` -/
+
+/-- IFF save (AIFF, WAVE, DSDIFF — any dialect with `WF`): whatever frames are written with whatever
+padding choice, the saved file consists of the same form type and the same chunks, byte-identical
+(id, size field, data, pad byte) and in the same order, with only the ID3 chunk replaced (or, when
+there was none, added behind all others); `tag` is that chunk: the id it had (or the dialect's),
+`10 + len(frames) + p` bytes of data.  The strict reader finds exactly these chunks in the output. -/
+theorem iff_save_preserves_chunks (d : Iff.Dialect) (hd : d.WF) (L : Iff.Layout) (h : L.OK d) (vmaj : Nat)
+    (hvm : vmaj = 3 ∨ vmaj = 4) (frames : Bytes) (pad : PadChoice) (p : Nat)
+    (hp : getPadding pad ((L.oldLen : Int) - (frames.length + 10 : Nat)) (L.trailing d) = p)
+    (hfit : frames.length + p < 2 ^ 28) (hroot : 4 + L.newExtent d (10 + frames.length + p) < 256 ^ d.sizeW) :
+    ∃ tag out, tag.id = L.id3Id d ∧ tag.data.length = 10 + frames.length + p ∧
+      Iff.save d (L.render d) vmaj frames pad = .ok out ∧
+      out = Iff.renderFile d L.formType (L.before ++ tag :: L.after) ∧
+      Iff.readFile d out = some (L.formType, L.before ++ tag :: L.after) := by
+  obtain ⟨hdr, h1, h2, h3⟩ := Iff.save_layout d hd L h vmaj hvm frames pad p hp hfit hroot
+  have hl : (hdr ++ frames ++ zeros p).length = 10 + frames.length + p := by simp [h2]; omega
+  have hok := Iff.withTag_ok d hd L h (hdr ++ frames ++ zeros p) (by rw [hl]; exact hroot)
+  have hch : (L.withTag d (hdr ++ frames ++ zeros p)).chunks = L.before ++ Iff.tagChunk (L.id3Id d) (hdr ++ frames ++ zeros p) :: L.after := by
+    simp [Iff.Layout.withTag, Iff.Layout.chunks]
+  refine ⟨Iff.tagChunk (L.id3Id d) (hdr ++ frames ++ zeros p), _, rfl, hl, h3, ?_, ?_⟩
+  · simp only [Iff.Layout.render, hch]; rfl
+  · have := Iff.readFile_layout d hd _ hok
+    rw [hch] at this
+    exact this
+
+/-- IFF delete: the file that is left consists of the same form type and exactly the other chunks,
+byte-identical and in order, and the strict reader finds them -/
+theorem iff_delete_preserves_chunks (d : Iff.Dialect) (hd : d.WF) (L : Iff.Layout) (h : L.OK d) :
+    Iff.delete d (L.render d) = .ok (Iff.renderFile d L.formType (L.before ++ L.after)) ∧
+      Iff.readFile d (Iff.renderFile d L.formType (L.before ++ L.after)) = some (L.formType, L.before ++ L.after) := by
+  have h1 := Iff.delete_layout d hd L h
+  have h2 := Iff.readFile_without d hd L h
+  have e : L.without.render d = Iff.renderFile d L.formType (L.before ++ L.after) := by
+    simp [Iff.Layout.render, Iff.Layout.without, Iff.Layout.chunks]
+  rw [e] at h1 h2
+  exact ⟨h1, h2⟩
+
+/-- the three formats are instances -/
+theorem iff_dialects_wf : Iff.aiff.WF ∧ Iff.wave.WF ∧ Iff.dsdiff.WF := ⟨Iff.wf_aiff, Iff.wf_wave, Iff.wf_dsdiff⟩
+
+/-- the hypotheses are satisfiable: an AIFF file "AIFF" with a COMM chunk of 3 bytes (one pad byte), an
+ID3 chunk of 12 bytes and an SSND chunk behind it is a well-formed layout, and a save of 2 bytes of
+frames that keeps the offered padding (0 bytes; 10 bytes follow the chunk data) meets the numeric ones -/
+example : ∃ L : Iff.Layout, L.OK Iff.aiff ∧
+    getPadding (.callback fun p _ => p) ((L.oldLen : Int) - (2 + 10 : Nat)) (L.trailing Iff.aiff) = (0 : Nat) ∧
+    L.trailing Iff.aiff = 10 ∧ 4 + L.newExtent Iff.aiff (10 + 2 + 0) < 256 ^ Iff.aiff.sizeW := by
+  refine ⟨Iff.Layout.mk [0x41, 0x49, 0x46, 0x46] [⟨[0x43, 0x4F, 0x4D, 0x4D], [1, 2, 3], [0]⟩]
+    (some ⟨[0x49, 0x44, 0x33, 0x20], List.replicate 12 7, []⟩) [⟨[0x53, 0x53, 0x4E, 0x44], [9, 9], []⟩],
+    ⟨by decide, by decide +kernel, ?_, by decide +kernel, by simp, by decide +kernel⟩,
+    by decide +kernel, by decide +kernel, by decide +kernel⟩
+  intro c hc
+  cases hc
+  decide +kernel
+
+/-- … and a WAVE file without an ID3 chunk but with a LIST chunk is a well-formed layout, too -/
+example : (Iff.Layout.mk [0x57, 0x41, 0x56, 0x45] [⟨[0x66, 0x6D, 0x74, 0x20], List.replicate 16 1, []⟩,
+    ⟨[0x4C, 0x49, 0x53, 0x54], [0x49, 0x4E, 0x46, 0x4F, 5], [0]⟩] none []).OK Iff.wave := by
+  refine ⟨by decide, by decide +kernel, ?_, by decide +kernel, by simp, by decide +kernel⟩
+  intro c hc
+  cases hc
 
 end Mutagen.C02
